@@ -49,6 +49,66 @@ def data_field_of(node, env):
     return fs
 
 
+def _check_id_model(F, rule, ck, nmax):
+    """check_id_constraints evaluated on every small document: up to `nmax` entries drawn from {general-purpose method, embedded / referenced
+    entry of each of the five relationships, service} × two ids (no id twice in one collection — OrderedSet's invariant, C19).  Each
+    evaluation is concrete (one path); its verdict must be the specification's: Err exactly when an embedded method's id occurs in another
+    relationship entry or in verification_method, or a service id equals the id of any method entry."""
+    import itertools
+    OS = "identity_core::common::ordered_set::OrderedSet"
+    VM = "identity_verification::verification_method::method::VerificationMethod"
+    SV = "identity_document::service::service::Service"
+    rels = list(REL_FIELDS)
+    kinds = [("verification_method", "vm")] + [(r_, k_) for r_ in rels for k_ in ("Embed", "Refer")] + [("service", "svc")]
+    entries = [(c_, k_, i_) for (c_, k_) in kinds for i_ in ("did:x:1#A", "did:x:1#B")]
+
+    def value(k_, i_):
+        if k_ == "vm":
+            return SY.St(VM, {"id": i_})
+        if k_ == "Embed":
+            return SY.V("Embed", (SY.St(VM, {"id": i_}),))
+        if k_ == "Refer":
+            return SY.V("Refer", (i_,))
+        return SY.St(SV, {"id": i_})
+
+    def spec(es):
+        rel = [(k_, i_) for (c_, k_, i_) in es if c_ in rels]
+        vms = {i_ for (c_, k_, i_) in es if c_ == "verification_method"}
+        for (k_, i_) in rel:
+            if k_ == "Embed" and (sum(1 for (_, j_) in rel if j_ == i_) > 1 or i_ in vms):
+                return False
+        ids = {i_ for (_, i_) in rel} | vms
+        return not any(i_ in ids for (c_, k_, i_) in es if c_ == "service")
+    ev = SY.Evaluator(F, inline_depth=6, concrete_vec=True, loop_bound=2 * nmax + 4)
+    n = bad = 0
+    for m in range(nmax + 1):
+        for es in itertools.combinations(entries, m):
+            if len({(c_, i_) for (c_, k_, i_) in es}) < len(es):
+                continue        # the same id twice in one collection
+            cols = {c_: [] for c_ in list(GUARDED)}
+            for (c_, k_, i_) in es:
+                cols[c_].append(value(k_, i_))
+            d = SY.St(CDD, {c_: SY.St(OS, {"0": v_}) for c_, v_ in cols.items()})
+            try:
+                ps = [q for q in ev.explore(ck, args=[d], max_paths=50)]
+            except (SY.Abort, SY.TooManyPaths) as e:
+                rule.fail((ck, "model", "not-evaluable"), "check_id_constraints could not be evaluated on a concrete document: %s" % e)
+                return
+            shape = ", ".join("%s:%s(%s)" % (c_, k_, i_[-1]) for (c_, k_, i_) in es) or "(empty)"
+            if len(ps) != 1 or not ps[0].complete:
+                rule.fail((ck, "model", "not-evaluable"), "check_id_constraints on the document {%s}: %d path(s), %s" % (shape, len(ps), "incomplete" if ps else "none"))
+                return
+            n += 1
+            ok = SR.is_success(ps[0].ret) and not SR.is_failure(ps[0].ret)
+            if ok != spec(es):
+                bad += 1
+                if bad <= 3:
+                    rule.fail((ck, "model", "accepts" if ok else "rejects"), "check_id_constraints %s the document {%s}; the id constraints (no embedded method id shared with another method entry, no service id equal to a method id) say %s" % (
+                        "accepts" if ok else "rejects", shape, "accept" if spec(es) else "reject"))
+    rule.site("check_id_constraints ≡ the id-constraint specification on all %d documents of ≤ %d entries over two ids: %s" % (n, nmax, bad == 0))
+    rule.require(n >= 2000, (ck, "model", "coverage"), "only %d documents were evaluated" % n)
+
+
 def run(F, R, tier):
     R.undecided += ["equality of the document with an abstract set-of-entries model after arbitrary histories", "DIDUrlQuery first-match semantics when two ids differ only in path/query",
                     "JSON equality of serialise→deserialise on concrete documents (serde)"]
@@ -150,6 +210,7 @@ def run(F, R, tier):
         r2.require(set(GUARDED) <= cov or not tab.paths, (ck, "universe"), "check_id_constraints does not scan all seven collections: missing %s" % sorted(set(GUARDED) - cov))
         errs = {q.describe()[-80:] for q in tab.err()}
         r2.require(len(tab.err()) >= 4 or not tab.paths, (ck, "rejections"), "check_id_constraints has %d rejecting paths, expected at least 4 (duplicate embedded, alias of an embedded method, dangling reference, service id)" % len(tab.err()))
+        _check_id_model(F, r2, ck, 3 if tier == "quick" else 4)
     # insert_service
     fn = CD + "::insert_service"
     if r2.anchor(F.hir(fn), fn):
@@ -189,7 +250,7 @@ def run(F, R, tier):
             if q.calls(r"OrderedSet::append$"):
                 neg = any(q.succeeded(e) is False for e in q.calls(r"CoreDocument::resolve_method$")) and any(q.succeeded(e) is False for e in q.calls(r"Queryable.*::query$"))
                 r2.require(neg, (fn, "gate-before-insert"), "insert_method appends without resolve_method and the service query having come back empty — path: %s" % q.describe()[:200])
-    r2.floor(4)
+    r2.floor(5)
 
     # ------------------------------------------------------------------ R3 guarded insertion, R4 refusal leaves the document unchanged
     r3 = R.rule("C04-R3", "T2", "every insertion into a guarded set happens after its gate passed, and no error exit is reachable after a mutation (a refused operation leaves the document unchanged)")
